@@ -19,6 +19,8 @@ dd=$(python3 -c "import json;print(json.load(open('$src/meta.json')).get('demo_d
 # a demonstration of a data race is run under the race detector (its demo_cmd says so)
 rf=$(python3 -c "import json;print('-race' if '-race' in json.load(open('$src/meta.json')).get('demo_cmd','') else '')")
 git -C $wt checkout -q -- . ; git -C $wt clean -qfd
+# the scratch worktree follows /repo HEAD (fix: commits made since it was created)
+git -C $wt checkout -q --detach $(git -C /repo rev-parse HEAD)
 cp $src/demo_test.go $wt/$dd/zz_seeded_demo_test.go
 tn=$(grep -o 'func Test[A-Za-z0-9_]*' $src/demo_test.go | head -1 | sed 's/func //')
 clean=$(cd $wt && go test $rf -vet=off -count=1 -run "^$tn\$" ./$dd/ 2>&1 | tail -1)
